@@ -4,4 +4,6 @@ CONSTANTS
 SPECIFICATION Spec
 INVARIANT UnitIsIdentity
 INVARIANT CacheInvisible
+INVARIANT MergeLaws
+INVARIANT ExportMerge
 INVARIANT ExportOK
